@@ -26,6 +26,10 @@ Bad(cs) ==
                    (IF on[1] # <<>> /\ on[2] # <<>> /\ Related(cs.after.ct, on[1][1], on[2][1])
                     THEN {<<IF RelatedDeclared(cs.after.ct, on[1][1], on[2][1]) THEN "Unrelated" ELSE "Unrelated.ImplicitTop", j>>} ELSE {})
                    \cup (IF cs.msg_old = "" \/ cs.msg_new = "" \/ cs.msg_old = cs.msg_new THEN {<<"Message.Types", j>>} ELSE {})
+                   \* the types the mutation reports (the argument and the result of its irrelevant-type search, which the message
+                   \* renders) are the types that were actually replaced / put in place
+                   \cup (IF cs.rep_old # <<>> /\ on[1] # <<>> /\ cs.rep_old[1] # on[1][1] THEN {<<"Message.ReportedOldIsReplaced", j>>} ELSE {})
+                   \cup (IF cs.rep_new # <<>> /\ on[2] # <<>> /\ cs.rep_new[1] # on[2][1] THEN {<<"Message.ReportedNewIsInPlace", j>>} ELSE {})
                    \cup (IF site.kind \in {"var", "ret"} /\ site.name \notin {cs.msg_node[k] : k \in DOMAIN cs.msg_node} /\ ~(site.kind = "ret" /\ "__RET__" \in {cs.msg_node[k] : k \in DOMAIN cs.msg_node})
                          THEN {<<"Message.Node", j>>} ELSE {})
     [] OTHER -> {}
